@@ -109,6 +109,7 @@ public:
 		~DisableQueueNotify()
 		{
 			--queue->queueNotifyCounter;
+			EVENTPP_VERIF_POINT("eventqueue.disablenotify.after-decrement", queue);
 
 			if(queue->doCanNotifyQueueAvailable() && ! queue->emptyQueue()) {
 				queue->queueListConditionVariable.notify_one();
@@ -190,16 +191,19 @@ public:
 
 	bool emptyQueue() const
 	{
+		EVENTPP_VERIF_POINT("eventqueue.emptyqueue.unlocked-read", this);
 		return queueList.empty() && (queueEmptyCounter.load(std::memory_order_acquire) == 0);
 	}
 	
 	void clearEvents()
 	{
+		EVENTPP_VERIF_POINT("eventqueue.unlocked-empty-check", this);
 		if(! queueList.empty()) {
 			BufferedItemList tempList;
 
 			{
 				std::lock_guard<Mutex> queueListLock(queueListMutex);
+				EVENTPP_VERIF_POINT("eventqueue.locked.queuelist", this);
 				std::swap(queueList, tempList);
 			}
 
@@ -209,6 +213,7 @@ public:
 				}
 
 				std::lock_guard<Mutex> queueListLock(freeListMutex);
+				EVENTPP_VERIF_POINT("eventqueue.locked.freelist", this);
 				freeList.splice(freeList.end(), tempList);
 			}
 		}
@@ -216,6 +221,7 @@ public:
 
 	bool process()
 	{
+		EVENTPP_VERIF_POINT("eventqueue.unlocked-empty-check", this);
 		if(! queueList.empty()) {
 			BufferedItemList tempList;
 
@@ -225,6 +231,7 @@ public:
 
 			{
 				std::lock_guard<Mutex> queueListLock(queueListMutex);
+				EVENTPP_VERIF_POINT("eventqueue.locked.queuelist", this);
 				std::swap(queueList, tempList);
 			}
 
@@ -238,6 +245,7 @@ public:
 				}
 
 				std::lock_guard<Mutex> queueListLock(freeListMutex);
+				EVENTPP_VERIF_POINT("eventqueue.locked.freelist", this);
 				freeList.splice(freeList.end(), tempList);
 				
 				return true;
@@ -249,6 +257,7 @@ public:
 
 	bool processOne()
 	{
+		EVENTPP_VERIF_POINT("eventqueue.unlocked-empty-check", this);
 		if(! queueList.empty()) {
 			BufferedItemList tempList;
 
@@ -258,6 +267,7 @@ public:
 
 			{
 				std::lock_guard<Mutex> queueListLock(queueListMutex);
+				EVENTPP_VERIF_POINT("eventqueue.locked.queuelist", this);
 				if(! queueList.empty()) {
 					tempList.splice(tempList.end(), queueList, queueList.begin());
 				}
@@ -272,6 +282,7 @@ public:
 				item.clear();
 
 				std::lock_guard<Mutex> queueListLock(freeListMutex);
+				EVENTPP_VERIF_POINT("eventqueue.locked.freelist", this);
 				freeList.splice(freeList.end(), tempList);
 				
 				return true;
@@ -284,6 +295,7 @@ public:
 	template <typename Predictor>
 	bool processIf(Predictor && predictor)
 	{
+		EVENTPP_VERIF_POINT("eventqueue.unlocked-empty-check", this);
 		if(! queueList.empty()) {
 			BufferedItemList tempList;
 			BufferedItemList idleList;
@@ -294,6 +306,7 @@ public:
 
 			{
 				std::lock_guard<Mutex> queueListLock(queueListMutex);
+				EVENTPP_VERIF_POINT("eventqueue.locked.queuelist", this);
 				std::swap(queueList, tempList);
 			}
 
@@ -321,11 +334,13 @@ public:
 
 				if (! tempList.empty()) {
 					std::lock_guard<Mutex> queueListLock(queueListMutex);
+					EVENTPP_VERIF_POINT("eventqueue.locked.queuelist", this);
 					queueList.splice(queueList.begin(), tempList);
 				}
 
 				if(! idleList.empty()) {
 					std::lock_guard<Mutex> queueListLock(freeListMutex);
+					EVENTPP_VERIF_POINT("eventqueue.locked.freelist", this);
 					freeList.splice(freeList.end(), idleList);
 					
 					return true;
@@ -339,6 +354,7 @@ public:
 	template <typename Predictor>
 	bool processUntil(Predictor && predictor)
 	{
+		EVENTPP_VERIF_POINT("eventqueue.unlocked-empty-check", this);
 		if(! queueList.empty()) {
 			BufferedItemList tempList;
 			BufferedItemList idleList;
@@ -349,6 +365,7 @@ public:
 
 			{
 				std::lock_guard<Mutex> queueListLock(queueListMutex);
+				EVENTPP_VERIF_POINT("eventqueue.locked.queuelist", this);
 				std::swap(queueList, tempList);
 			}
 
@@ -376,11 +393,13 @@ public:
 
 				if (! tempList.empty()) {
 					std::lock_guard<Mutex> queueListLock(queueListMutex);
+					EVENTPP_VERIF_POINT("eventqueue.locked.queuelist", this);
 					queueList.splice(queueList.begin(), tempList);
 				}
 
 				if(! idleList.empty()) {
 					std::lock_guard<Mutex> queueListLock(freeListMutex);
+					EVENTPP_VERIF_POINT("eventqueue.locked.freelist", this);
 					freeList.splice(freeList.end(), idleList);
 					
 					return true;
@@ -422,8 +441,10 @@ public:
 
 	bool peekEvent(QueuedEvent * queuedEvent)
 	{
+		EVENTPP_VERIF_POINT("eventqueue.unlocked-empty-check", this);
 		if(! queueList.empty()) {
 			std::lock_guard<Mutex> queueListLock(queueListMutex);
+			EVENTPP_VERIF_POINT("eventqueue.locked.queuelist", this);
 			
 			if(! queueList.empty()) {
 				*queuedEvent = queueList.front().get();
@@ -436,11 +457,13 @@ public:
 
 	bool takeEvent(QueuedEvent * queuedEvent)
 	{
+		EVENTPP_VERIF_POINT("eventqueue.unlocked-empty-check", this);
 		if(! queueList.empty()) {
 			BufferedItemList tempList;
 
 			{
 				std::lock_guard<Mutex> queueListLock(queueListMutex);
+				EVENTPP_VERIF_POINT("eventqueue.locked.queuelist", this);
 
 				if(! queueList.empty()) {
 					tempList.splice(tempList.end(), queueList, queueList.begin());
@@ -452,6 +475,7 @@ public:
 				tempList.front().clear();
 
 				std::lock_guard<Mutex> queueListLock(freeListMutex);
+				EVENTPP_VERIF_POINT("eventqueue.locked.freelist", this);
 				freeList.splice(freeList.end(), tempList);
 
 				return true;
@@ -501,9 +525,11 @@ protected:
 	void doEnqueue(QueuedEvent && item)
 	{
 		BufferedItemList tempList;
+		EVENTPP_VERIF_POINT("eventqueue.unlocked-freelist-check", this);
 		if(! freeList.empty()) {
 			{
 				std::lock_guard<Mutex> queueListLock(freeListMutex);
+				EVENTPP_VERIF_POINT("eventqueue.locked.freelist", this);
 				if(! freeList.empty()) {
 					tempList.splice(tempList.end(), freeList, freeList.begin());
 				}
@@ -518,6 +544,7 @@ protected:
 		it->set(std::move(item));
 
 		std::lock_guard<Mutex> queueListLock(queueListMutex);
+		EVENTPP_VERIF_POINT("eventqueue.locked.queuelist", this);
 		queueList.splice(queueList.end(), tempList, it);
 	}
 
